@@ -116,6 +116,11 @@ check("C20", "exploration",
       "Trusted: the fake service (harness), serde_json (values restricted to what it carries losslessly through its own text form).",
       "property-based testing of the CLI against a scripted fake server (process level)", "DESIGN.md §4 C20")
 
+check("C09", "exploration",
+      "Grammar-directed definitions (resolving references, finite types, distinct names; anonymous types in every position; ordinary, IDL-keyword and Rust-keyword names) are pushed through all nine front-ends in rotation (generate() with/without header, compile(), the CLI via stdin and file, cargo_build_many and cargo_build_tosource in a build script, varlink! and varlink_file!), collected in one batch crate and type-checked with `cargo check --message-format=json`; any error diagnostic is attributed to its module and reported; text-producing front-ends are cross-checked for identical token streams. Eight recorded classes of genuine generator defects (K1-K8, see KNOWN_FINDINGS.json) are excluded from the must-pass batch by exact predicates (counted) and re-checked separately: a fixed example per class and up to six generated examples, whose diagnostics must have the recorded error codes - anything else is a new violation. Rejection half: near-miss and duplicate definitions must be refused by every front-end without output.",
+      "Trusted: rustc/cargo as installed; the harness' known-class predicates. 90 definitions quick / 1500 thorough.",
+      "grammar-based generation + compile-checking of generator output (differential across front-ends)", "DESIGN.md §4 C09, §5 D11")
+
 ALL = ["C%02d" % i for i in range(1, 21)]
 
 NOT_BUILT_REASON = "check not built yet in this round (design in DESIGN.md §4); not claimed until it exists and is validated"
